@@ -724,6 +724,118 @@ def _run_case(case, seed, modes, keys, rec):
             E(not bad, inp, "a configured in-range value is not the value the loaded object holds (lost or truncated)", bad[:4],
               finding=_finding_readback(A, regs1, bad))
         _chain(A, o1, inp, rec, kind, expect, settings, c, rng, keys)
+    _alt_width_checks(A, cfg, tsettings, regs0, rec, rng)
+
+
+def _ref_field(v, width, alts, reverse):
+    """Documented placement of a wide register value, written from the format description (independent of registers.py):
+    a byte-reversed register (ROTKH / RKTH: the configuration shows the hash as the byte string it is) holds the value as a
+    big-endian byte string of the SMALLEST alternative width that holds it (else the full width), left-justified in the field
+    and zero padded; a plain register is little endian over its whole width."""
+    nbytes = max(1, (v.bit_length() + 7) // 8)
+    if not reverse:
+        return v.to_bytes(width // 8, "little")
+    a = next((x for x in sorted(alts) if nbytes <= x // 8), width)
+    return v.to_bytes(a // 8, "big").ljust(width // 8, b"\0")
+
+
+def _alt_width_values(rng, width, alts):
+    """boundary class 'value with leading zero byte(s)' for every alternative width and the full width (as byte strings of that
+    width): 1, 2, 16 leading zero bytes, the value 1, all ones but the top byte, plus an ordinary value as control"""
+    out = []
+    for w in sorted(set(alts)) + [width]:
+        n = w // 8
+
+        def rnd(k):
+            b = bytearray(rng.getrandbits(8) for _ in range(k))
+            if k:
+                b[0] |= 0x01
+                b[-1] |= 0x01
+            return bytes(b)
+        out += [("lead1", bytes(1) + rnd(n - 1)), ("lead2", bytes(2) + rnd(n - 2)), ("lead16", bytes(16) + rnd(n - 16)),
+                ("one", bytes(n - 1) + b"\x01"), ("ones-but-top", bytes(1) + b"\xff" * (n - 1)), ("ordinary", rnd(n))]
+    return out
+
+
+def _alt_width_checks(A, cfg, tsettings, regs0, rec, rng):
+    """EVERY run, EVERY row with alternative-width registers (ROTKH of lpc55s3x/mcxn CMPA, RKTH / CUST_MK_SK fuse groups): the
+    leading-zero-byte boundary class through all entry paths - YAML value, export(rotkh=...), parse -> get_config -> load - with the
+    oracle on the exported bytes (documented byte order at the documented offset) and the identity round trips."""
+    if regs0 is None:
+        return
+    E = rec.expect
+    cid = rec.cid
+    for reg in list(regs0._registers):
+        if not reg.alt_widths or reg.name not in tsettings or isinstance(tsettings[reg.name], dict):
+            continue
+        W, alts, rev = reg.width, list(reg.alt_widths), bool(reg.reverse)
+        sw = reg.sub_regs[0].width if reg.sub_regs else 0
+        plain_order = not reg.reverse_subregs_order
+        for label, h in _alt_width_values(rng, W, alts):
+            v = int.from_bytes(h, "big")
+            F = _ref_field(v, W, alts, rev)
+            raw = int.from_bytes(F, "little")
+            for spelling in (("padded", h.hex() if reg.config_as_hexstring else "0x" + h.hex()),
+                             ("unpadded", f"{v:X}" if reg.config_as_hexstring else hex(v))):
+                inp = (cid, "altwidth", reg.name, label, f"{len(h) * 8}bit", spelling[0], h.hex())
+                rec.note(inp, f"{A.kind}:altwidth:{label}")
+                settings = dict(tsettings)
+                settings[reg.name] = spelling[1]
+                c = A.with_settings(cfg, settings)
+                r = pyres(A.load, json.loads(json.dumps(c)))
+                if not E(r[0] == "ok", inp, "a configuration with an in-range value for an alternative-width register does not load", r):
+                    continue
+                o1 = r[1]
+                g = A.regs(o1).find_reg(reg.name)
+                if plain_order:
+                    got_raw = pyres(g.get_value, True)
+                    E(got_raw == ("ok", raw), inp, "the register does not hold the configured value in the documented byte order (raw value / "
+                      "sub-register words)", hex(got_raw[1]) if got_raw[0] == "ok" else got_raw, hex(raw))
+                    if sw == 32 and g.sub_regs:
+                        words = [s_.get_value(True) for s_ in g.sub_regs]
+                        want = [int.from_bytes(F[4 * k:4 * k + 4], "little") for k in range(len(words))]
+                        E(words == want, inp, "the sub-register (fuse / PFR word) values are not the configured value in the documented byte order",
+                          [hex(x) for x in words], [hex(x) for x in want])
+                if A.has_binary:
+                    b = pyres(A.export, o1)
+                    if not E(b[0] == "ok", inp, "export fails", b):
+                        continue
+                    b1 = bytes(b[1])
+                    field = b1[g.offset:g.offset + W // 8]
+                    E(field == F, inp, "the exported field is not the configured value in the documented byte order at the documented offset",
+                      field.hex(), F.hex())
+                    # binary -> parse -> export, and binary -> parse -> get_config -> load -> export
+                    p = pyres(A.parse, b1)
+                    if E(p[0] == "ok", inp, "the area's own parser rejects the exported binary", p):
+                        E(pyres(A.export, p[1]) == ("ok", b1), inp, "export(parse(export(x))) differs from export(x)")
+                        c2 = pyres(A.config, p[1])
+                        if E(c2[0] == "ok", inp, "get_config fails", c2):
+                            l2 = pyres(A.load, json.loads(json.dumps(c2[1])))
+                            if E(l2[0] == "ok", inp, "the configuration produced by get_config does not load back", l2):
+                                b3 = pyres(A.export, l2[1])
+                                E(b3 == ("ok", b1), inp, "parse -> get_config -> load -> export is not the identity",
+                                  first_diff(b1, bytes(b3[1])) if b3[0] == "ok" else b3)
+                else:
+                    c2 = pyres(A.config, o1)
+                    if E(c2[0] == "ok", inp, "get_config fails", c2):
+                        l2 = pyres(A.load, json.loads(json.dumps(c2[1])))
+                        if E(l2[0] == "ok", inp, "the configuration produced by get_config does not load back", l2):
+                            o3, o1v = pyres(A.observable, l2[1]), pyres(A.observable, o1)
+                            E(o3 == o1v, inp, "load(get_config(x)) does not hold the same values as x", _obs_diff(o1v, o3))
+            # export(rotkh=<bytes>) (the CLI's --rot-config / binary ROTKH path)
+            if isinstance(A, PfrArea) and A.kind == "cmpa" and reg.name == getattr(A.cls, "ROTKH_REGISTER", "ROTKH") and len(h) * 8 in alts + [W]:
+                inp = (cid, "altwidth", reg.name, label, f"{len(h) * 8}bit", "export(rotkh=)", h.hex())
+                rec.note(inp, f"{A.kind}:altwidth:rotkh=")
+                o = pyres(A.load, json.loads(json.dumps(cfg)))
+                if o[0] == "ok":
+                    b = pyres(lambda: o[1].export(rotkh=h, draw=False))
+                    if E(b[0] == "ok", inp, "export(rotkh=...) fails", b):
+                        g = o[1].registers.find_reg(reg.name)
+                        field = b[1][g.offset:g.offset + W // 8]
+                        # (the register is integer based: a full-width hash with >= 16 leading zero bytes IS the shorter value - same rule
+                        #  as for the configuration value; for every h of an alternative width this is h left-justified and zero padded)
+                        E(field == F, inp, "export(rotkh=h): the ROTKH field is not the value in the documented byte order (h left-justified, "
+                          "zero padded)", field.hex(), F.hex())
 
 
 def _cfg_excerpt(settings):
